@@ -10,7 +10,7 @@ for m in "${files[@]}"; do
   if ! git -C /repo apply --check "$PWD/$m" 2>/dev/null; then echo "SKIP $m (does not apply)"; rc=1; continue; fi
   git -C /repo apply "$PWD/$m"
   out=$(VERIF_BUDGET_S=${SELFTEST_BUDGET_S:-400} ./run.sh "$id" quick 2>&1); code=$?
-  git -C /repo checkout -- . 
+  git -C /repo apply -R "$PWD/$m"
   nv=$(echo "$out" | grep -c '^VIOLATION')
   sig=$(echo "$out" | grep -m1 'signature:' | sed 's/^ *//')
   if [ $code -eq 1 ] && [ $nv -gt 0 ]; then echo "CAUGHT $m ($nv violations; first $sig)"; else echo "MISSED $m (exit $code)"; rc=1; fi
